@@ -1237,13 +1237,29 @@ func TestC16(t *testing.T) {
 		if reported[cd.Sig] {
 			continue
 		}
-		ok := true
-		for rep := 0; rep < 2 && ok; rep++ {
-			sub := &c16Run{sigma: r.sigma, thorough: r.thorough, nontriv: map[string]bool{}, byFamily: map[string]int{}}
-			sub.runCase(pool.get(axFreshIndex()), cd.Case) // fresh server per confirmation
-			ok = false
-			for _, c2 := range sub.cands {
-				ok = ok || c2.Sig == cd.Sig
+		// confirmation: twice on a fresh server; failing that, twice on one of the long-lived worker servers (a
+		// defect that needs what a process has already seen - a cache that went wrong earlier - repeats there
+		// every time, and nowhere else)
+		confirmOn := func(get func() *apih.Server) bool {
+			for rep := 0; rep < 2; rep++ {
+				sub := &c16Run{sigma: r.sigma, thorough: r.thorough, nontriv: map[string]bool{}, byFamily: map[string]int{}}
+				sub.runCase(get(), cd.Case)
+				hit := false
+				for _, c2 := range sub.cands {
+					hit = hit || c2.Sig == cd.Sig
+				}
+				if !hit {
+					return false
+				}
+			}
+			return true
+		}
+		ok := confirmOn(func() *apih.Server { return pool.get(axFreshIndex()) })
+		for w := 0; !ok && w < axWorkers(); w++ {
+			w := w
+			ok = confirmOn(func() *apih.Server { return pool.get(w) })
+			if ok {
+				cd.What += "  [reproduces on a server that has served the earlier cases, not on a fresh one]"
 			}
 		}
 		if !ok {
